@@ -9,7 +9,7 @@ import z3
 
 from . import ops
 from .ops import Arith, truth, b_and, b_or, b_not, equal, merge, ite
-from .values import (EngineError, NONE, ListV, SeqV, OptV, ObjV, MapV, SetV, RangeV, ExcV, StrV, LitSet,
+from .values import (EngineError, NONE, ListV, SeqV, OptV, ObjV, MapV, SetV, RangeV, ExcV, StrV, LitSet, EnumV,
                      TInt, TBool, TReal, TBV, TTuple, TList, TSeq, TOpt, TRec, TMap, TSet, TNone, TConst,
                      is_z3, is_scalar, is_bv, is_real, to_int_term, to_bool_term, to_real_term, fresh, fresh_name,
                      shape_of, value_facts, key_term, key_sort, shape_leaves, flatten_value, build_from_leaves,
@@ -159,6 +159,7 @@ class Engine(object):
         self.pure_depth = 0
         self._ghost_hits = set()
         self.fn_stack = [func_node]
+        self.cls_stack = [cls_node]
         self._deco_cache = {}
         if func_node is not None:
             self._number_sites(func_node)
@@ -529,7 +530,7 @@ class Engine(object):
                     zb = ops._low_zero_bits(p_)
                     if 0 < zb < 10 ** 5 and self.entails(st, z3.And(q_ >= 0, q_ < (1 << zb))):
                         return [(st, p_ + q_)]
-                raise EngineError("| on Int terms whose bit ranges cannot be shown disjoint (line %s)" % getattr(node, "lineno", "?"))
+                # otherwise ops' general rule for a constant with few set bits, or "outside the subset"
         return self._with_arith(st, node, lambda ar: ar.binop(op, a, b))
 
     def seq_repeat(self, s, n):
@@ -765,7 +766,7 @@ class Engine(object):
                 return [(st, b_or(*[equal(item, x) for x in vals]))]
         if (self.pure or self.pure_depth) and (container is NONE or isinstance(container, OptV)):
             return [(st, False)]      # spec expressions are total
-        raise EngineError("'in' on %r" % (container,))
+        raise EngineError("'in' on %s" % type(container).__name__)
 
     def ev_IfExp(self, node, st):
         out = []
@@ -777,14 +778,23 @@ class Engine(object):
             if isinstance(t, bool):
                 out.extend(self.ev(node.body if t else node.orelse, s))
                 continue
-            if self._simple([node.body, node.orelse]):
-                ra, rb = self.ev(node.body, s), self.ev(node.orelse, s)
-                if len(ra) == 1 and len(rb) == 1 and not isinstance(ra[0][1], Raised) and not isinstance(rb[0][1], Raised):
-                    try:
-                        out.append((s, merge(t, ra[0][1], rb[0][1])))
-                        continue
-                    except EngineError:
-                        pass
+            # evaluate both arms under their guards; if neither forks, raises nor has effects the
+            # conditional expression is a single term
+            s_a, s_b = s.assume(t), s.assume(z3.Not(t))
+            n_obl = len(self.obligations)
+            ra, rb = self.ev(node.body, s_a), self.ev(node.orelse, s_b)
+            if (len(ra) == 1 and len(rb) == 1 and not isinstance(ra[0][1], Raised) and not isinstance(rb[0][1], Raised)
+                    and _same_env(ra[0][0].env, s_a.env) and _same_env(rb[0][0].env, s_b.env)
+                    and ra[0][0].trace is s_a.trace and rb[0][0].trace is s_b.trace
+                    and len(ra[0][0].rand) == len(s.rand) and len(rb[0][0].rand) == len(s.rand)):
+                try:
+                    val = merge(t, ra[0][1], rb[0][1])
+                    extra = [z3.Implies(t, f) for f in ra[0][0].pc[len(s_a.pc):]] + [z3.Implies(z3.Not(t), f) for f in rb[0][0].pc[len(s_b.pc):]]
+                    out.append((s.assume(*extra) if extra else s, val))
+                    continue
+                except EngineError:
+                    pass
+            del self.obligations[n_obl:]
             s_t, s_f = s.assume(t), s.assume(z3.Not(t))
             if self.feasible(s_t):
                 out.extend(self.ev(node.body, s_t))
@@ -798,13 +808,19 @@ class Engine(object):
     def ev_JoinedStr(self, node, st):
         return [(st, StrV())]
 
+    def mangle(self, attr):
+        """python's private-name mangling inside a class body"""
+        if attr.startswith("__") and not attr.endswith("__") and self.cls_stack and self.cls_stack[-1] is not None:
+            return "_" + self.cls_stack[-1].name.lstrip("_") + attr
+        return attr
+
     def ev_Attribute(self, node, st):
         out = []
         for s, base in self.ev(node.value, st):
             if isinstance(base, Raised):
                 out.append((s, base))
                 continue
-            out.extend(self.getattr(s, node, base, node.attr))
+            out.extend(self.getattr(s, node, base, self.mangle(node.attr)))
         return out
 
     def getattr(self, st, node, base, attr):
@@ -1101,6 +1117,13 @@ class Engine(object):
             return out
         if isinstance(base, (str, StrV)):
             return [(st, StrV())]
+        if isinstance(base, ObjV):
+            ext = self.externals.get(base.cls + ".__getitem__")
+            if ext is not None:
+                return [(s2, val) for s2, val, _ in ext(self, base, [idx], {}, st, node)]
+            m = self.find_method(base.cls, "__getitem__")
+            if m is not None:
+                return self.call_function(self.decorated(m[0].bind(base), st), [idx], {}, st, node)
         raise EngineError("subscript of %s (line %s)" % (type(base).__name__, getattr(node, "lineno", "?")))
 
     def map_get(self, m, kt):
@@ -1395,6 +1418,10 @@ class Engine(object):
             return self.call_function(fv, args, kwargs, st, node)
         if isinstance(fv, (PyObj, BoundBuiltin, ClassRef)):
             return builtins_model.call_builtin(self, fv, args, kwargs, st, node)
+        if isinstance(fv, ObjV):
+            ext = self.externals.get(fv.cls + ".__call__")
+            if ext is not None:
+                return [(s2, val) for s2, val, _ in ext(self, fv, args, kwargs, st, node)]
         if isinstance(fv, ExternalMethod):
             out = []
             for s2, val, newobj in fv.handler(self, fv.obj, args, kwargs, st, node):
@@ -1455,6 +1482,9 @@ class Engine(object):
         listed as modular)."""
         name = getattr(fv.node, "name", "<lambda>")
         qual = fv.qual or name
+        if (not isinstance(fv.node, ast.Lambda) and (self.pure or self.pure_depth) and not getattr(self, "_revealing", False)
+                and any(isinstance(d, ast.Name) and d.id == "opaque" for d in fv.node.decorator_list)):
+            return [(st, self.opaque_call(fv, args, st))]
         con = self.contract_for(fv)
         if con is not None and not self.pure and not self.pure_depth:
             return self.call_by_contract(con, fv, args, kwargs, st, node)
@@ -1479,6 +1509,7 @@ class Engine(object):
         self.cur_mod = fv.mod
         self.depth += 1
         self.fn_stack.append(fv.node)
+        self.cls_stack.append(fv.cls)
         try:
             if isinstance(fv.node, ast.Lambda):
                 results = [("return", s, v) for s, v in self.ev(fv.node.body, inner)]
@@ -1489,6 +1520,7 @@ class Engine(object):
         finally:
             self.depth -= 1
             self.fn_stack.pop()
+            self.cls_stack.pop()
             self.cur_mod = caller_mod
         out = []
         for kind, s, v in results:
@@ -1591,6 +1623,32 @@ class Engine(object):
             if self.feasible(s_ex):
                 outs.append((s_ex, Raised(ExcV(exc))))
         return outs
+
+    def opaque_call(self, fv, args, st):
+        """uninterpreted application + one definitional instance for these arguments"""
+        from .sample import leaves_of
+        leaves = []
+        for a in args:
+            if isinstance(a, SeqV):
+                raise EngineError("opaque spec function applied to a whole sequence")
+            leaves_of(a, leaves)
+            if isinstance(a, (bool, int)) and not is_z3(a):
+                leaves.append(z3.IntVal(int(a)))
+        self._revealing = True
+        try:
+            body = self.fold_results(self.call_function(fv, args, {}, State({}, st.pc, None, st.trace, st.rand, st.ghost), None), st)
+        finally:
+            self._revealing = False
+        if isinstance(body, bool):
+            body = z3.BoolVal(body)
+        elif isinstance(body, int):
+            body = z3.IntVal(body)
+        if not is_z3(body):
+            raise EngineError("opaque spec function must return a scalar")
+        uf = z3.Function("opq_" + fv.node.name, *([l.sort() for l in leaves] + [body.sort()]))
+        app = uf(*leaves)
+        ops.define("opq_" + fv.node.name, app == body)
+        return app
 
     def eval_spec(self, fnode, con, argmap, st):
         """Evaluate a spec function (pure) symbolically.  -> python bool / z3 Bool / value"""
@@ -1859,7 +1917,7 @@ class Engine(object):
             base = r[0][1]
             if not isinstance(base, ObjV):
                 raise EngineError("attribute assignment on %r" % type(base).__name__)
-            return self.assign(target.value, base.with_field(target.attr, value), r[0][0], node)
+            return self.assign(target.value, base.with_field(self.mangle(target.attr), value), r[0][0], node)
         if isinstance(target, ast.Subscript):
             r = self.ev_list([target.value, target.slice], st) if not isinstance(target.slice, ast.Slice) else None
             if r is None or len(r) != 1 or isinstance(r[0][1], Raised):
@@ -1931,7 +1989,9 @@ class Engine(object):
                     raise EngineError("different random draws")
                 gh = {}
                 for k in set(a.ghost) | set(b.ghost):
-                    if k in a.ghost and k in b.ghost:
+                    if k.startswith("__"):
+                        gh[k] = base.ghost.get(k, a.ghost.get(k, b.ghost.get(k)))     # engine bookkeeping (iteration-start values)
+                    elif k in a.ghost and k in b.ghost:
                         gh[k] = a.ghost[k] if a.ghost[k] is b.ghost[k] else merge(t, a.ghost[k], b.ghost[k])
                 return rest + [("normal", State(env, pc, y, tr, a.rand, gh), None)]
             except EngineError:
@@ -1989,6 +2049,36 @@ class Engine(object):
                 continue
             if spec is not None and spec.invariant:
                 out.extend(self.loop_with_invariant(node, s, spec, ordn, itv))
+                continue
+            if isinstance(itv, LitSet) and itv.conds is not None and len(itv.items) <= self.MAX_UNROLL:
+                # a small symbolic set: each candidate's iteration happens under its presence flag
+                # (iteration order is arbitrary; sound for bodies whose effect commutes -- checked
+                # only syntactically: the body must not break/return)
+                states = [s]
+                for it, c in zip(itv.items, itv.conds):
+                    nxt = []
+                    for s1 in states:
+                        t = truth(c)
+                        if t is False:
+                            nxt.append(s1)
+                            continue
+                        s_y = s1 if t is True else s1.assume(t)
+                        s_n = None if t is True else s1.assume(z3.Not(t))
+                        r_y = []
+                        if self.feasible(s_y):
+                            for k, s3, v in self.exec_block(node.body, self._mark_iter(self.assign(node.target, it, s_y, node))):
+                                if k in ("normal", "continue"):
+                                    r_y.append(("normal", s3, None))
+                                else:
+                                    raise EngineError("break/return inside a loop over a symbolic set (line %d)" % node.lineno)
+                        r_n = [("normal", s_n, None)] if s_n is not None and self.feasible(s_n) else []
+                        if t is True:
+                            nxt.extend(x[1] for x in r_y)
+                        else:
+                            nxt.extend(x[1] for x in self.join(s1, t, r_y, r_n))
+                    states = nxt
+                for s1 in states:
+                    out.extend(self.exec_block(node.orelse, s1) if node.orelse else [("normal", s1, None)])
                 continue
             items = self.static_items(itv)
             if items is None or len(items) > self.options.get("max_unroll", self.MAX_UNROLL):
@@ -2057,6 +2147,14 @@ class Engine(object):
                     d = ar.binop('//', ar.binop('+', d, stp - 1), stp)
                 n_items = ite(ar.compare('>', d, 0), d, 0)
                 elem = lambda k: (ar.binop('+', itv.lo, ar.binop('*', k, stp)), [])
+            elif isinstance(itv, EnumV):
+                sq = itv.seq
+                n_items = sq.length
+                ar0 = Arith(lambda *x: None)
+
+                def elem(k, sq=sq, st0=itv.start):
+                    v, f = seqs.seq_get(sq, k)
+                    return (ar0.binop('+', st0, k), v), f
             elif isinstance(itv, (SeqV, ListV, tuple)):
                 sq = seqs.to_seq(itv)
                 n_items = sq.length
